@@ -50,6 +50,16 @@ Definition sx_c10_es (verbose : nat) (es : list entry) : sx :=
       sx_view_result (to_dict false ViewText (Some ViewTree) verbose es)].
 Definition sx_c10 (verbose : nat) (r : list entry * list path) : sx := sx_c10_es verbose (fst r).
 
+(* all presentations of an ignore_order + report_repetition run; [rs] = the
+   repetition records of the run as (path, old_indexes, new_indexes) *)
+Definition sx_trep (t : trep) : sx :=
+  SL [sx_str (trpath t); SL (map sx_nat (trold t)); SL (map sx_nat (trnew t)); sx_value (trval t)].
+Definition sx_c10_rep (verbose : nat) (es : list entry) (rs : list repinfo3) : sx :=
+  SL [sx_pretty (pretty verbose es);
+      sx_json (to_json_full true verbose es rs);
+      SL [SA "text"; sx_text (fst (text_full true verbose es rs)); sx_sorted_list sx_trep (snd (text_full true verbose es rs))];
+      sx_view_result (to_dict true ViewText (Some ViewTree) verbose es)].
+
 (* str() / repr() of a value, and the JSON-able value, on their own *)
 Definition sx_strs (v : value) : sx :=
   SL [sx_str (py_str v); sx_str (py_repr v); match to_jsonable v with None => SA "raise" | Some j => sx_jv j end].
